@@ -35,6 +35,7 @@ type Node struct {
 	ExpirePeriod uint64
 	Height       uint64 // last begun height
 	Dead         string // non-empty once a panic escaped an ABCI call
+	InitVals     []abci.ValidatorUpdate // validator set answered by InitChain (what Tendermint starts with)
 	stateDB      db.DB
 	eventDB      db.DB
 	snapDB       db.DB
@@ -46,6 +47,7 @@ type NodeOpts struct {
 	Period       uint64
 	ExpirePeriod uint64
 	KeepStates   int64
+	InitialHeight int64 // ABCI InitialHeight (default: the package constant)
 }
 
 func tmpRoot() string {
@@ -110,14 +112,19 @@ func NewNode(gen types.AppState, o NodeOpts) (n *Node, err error) {
 	for _, v := range gen.Validators {
 		updates = append(updates, abci.Ed25519ValidatorUpdate(v.PubKey.Bytes(), 1))
 	}
-	n.App.InitChain(abci.RequestInitChain{
+	initH := int64(InitialHeight)
+	if o.InitialHeight != 0 {
+		initH = o.InitialHeight
+	}
+	ric := n.App.InitChain(abci.RequestInitChain{
 		Time:          time.Unix(1700000000, 0).UTC(),
 		ChainId:       "verif",
 		Validators:    updates,
-		InitialHeight: InitialHeight,
+		InitialHeight: initH,
 		AppStateBytes: js,
 	})
-	n.Height = InitialHeight - 1
+	n.InitVals = ric.Validators
+	n.Height = uint64(initH) - 1
 	return n, nil
 }
 
